@@ -81,6 +81,7 @@ def run(ctx):
         "the byte string given to Unmarshal / New...FromData is compared with a private copy after the call "
         "(`inmut` must be true); for arbitrary bytes the caller's buffer is one reused region overwritten right "
         "after the call, before the decoded bitmap is read",
+        "the caller owns what it was given: every returned slice (list forms, Marshal bytes, block lists) is overwritten by the harness (elements flipped, capacity refilled through s[:0]) once it has been rendered; equal values are encoded / listed repeatedly in one process with that in between, later calls are judged as usual",
         "late traces (about half): Marshal's bytes, list-form results and iterator slices are kept as returned and "
         "rendered when the trace is over; a call that does not return within 40 s is a rejected `hang` event",
         "concurrent read rounds (also as the first use of the package in 6 fresh processes): a bitmap, its bytes "
